@@ -284,3 +284,11 @@ MUTANTS += [
     B("c07-benign-serializer-guard-form", "C07", ESER, "\t\t\t\tif len(buffer)-position-minTailLength < len(fieldKey)+maxStringHeaderLength+len(value) {", "\t\t\t\tif room := len(buffer) - position - minTailLength; room < len(fieldKey)+maxStringHeaderLength+len(value) {"),
     B("c07-benign-mlr-locals", "C07", MLR, "\t\tmlr.offsetAppend = copy(mlr.buffer, buffer[recordStart:])\n\t\tmlr.offsetSearch = searchStart - recordStart\n", "\t\tremaining := buffer[recordStart:]\n\t\tmlr.offsetAppend = copy(mlr.buffer, remaining)\n\t\tmlr.offsetSearch = searchStart - recordStart\n"),
 ]
+
+MUTANTS += [
+    M("c07-r3-revert-sanitize", "C07", "C07.R3", LPCS, "\t\tfor i, key := range permKeys {\n\t\t\t// field values come from the network; label values must be valid UTF-8 or the metric library panics\n\t\t\tpermKeys[i] = strings.ToValidUTF8(key, \"\\uFFFD\")\n\t\t}\n", "\t\t_ = strings.ToValidUTF8\n", "a metric-key field with a 0xFF byte and any custom counter"),
+    M("c07-r3-sanitize-first-only", "C07", "C07.R3", LPCS, "\t\tfor i, key := range permKeys {\n\t\t\t// field values come from the network; label values must be valid UTF-8 or the metric library panics\n\t\t\tpermKeys[i] = strings.ToValidUTF8(key, \"\\uFFFD\")\n\t\t}\n", "\t\tif len(permKeys) > 0 {\n\t\t\tpermKeys[0] = strings.ToValidUTF8(permKeys[0], \"\\uFFFD\")\n\t\t}\n", "two metric keys, the second one not valid UTF-8"),
+    M("c07-r2-parser-panics", "C07", "C07.R2", SPARSE, "\tif facility < 0 || facility >= len(syslogprotocol.FacilityNames) {\n\t\tparser.onMalformed(record, fmt.Sprintf(\"invalid syslog facility %d\", facility), input)\n\t\treturn nil\n\t}", "\tif facility < 0 || facility >= len(syslogprotocol.FacilityNames) {\n\t\tpanic(fmt.Sprintf(\"invalid syslog facility %d\", facility))\n\t}", "PRI 999"),
+    M("c07-r2-transform-fatal", "C07", "C07.R2", "transform/tparsetime/tparsetime.go", "\t\ttf.errorCounter(record.RawLength)\n", "\t\ttf.errorCounter(record.RawLength)\n\t\ttf.errorLogger.Fatal(\"bad timestamp: \", err)\n", "any unparsable timestamp"),
+    B("c07-r3-benign-sanitize-value-form", "C07", LPCS, "\t\tfor i, key := range permKeys {\n\t\t\t// field values come from the network; label values must be valid UTF-8 or the metric library panics\n\t\t\tpermKeys[i] = strings.ToValidUTF8(key, \"\\uFFFD\")\n\t\t}\n", "\t\tfor i := range permKeys {\n\t\t\tpermKeys[i] = strings.ToValidUTF8(permKeys[i], \"?\")\n\t\t}\n"),
+]
